@@ -85,12 +85,12 @@ CONFIGS: Dict[str, Dict[str, List[Dict[str, Any]]]] = {
         ],
     },
     "FlatPack": {
-        "quick": [_c("default"), _c("r2c2", row_blocks=2, col_blocks=2), _c("r2c3", row_blocks=2, col_blocks=3)],
+        "quick": [_c("default"), _c("r2c2", row_blocks=2, col_blocks=2), _c("r2c3", row_blocks=2, col_blocks=3), _c("r3c2", row_blocks=3, col_blocks=2)],
         "thorough": [
             _c("default"), _c("r1c1", row_blocks=1, col_blocks=1), _c("r1c3", row_blocks=1, col_blocks=3),
             _c("r2c2", row_blocks=2, col_blocks=2), _c("r3c2block", row_blocks=3, col_blocks=2, reward="block"),
             _c("toyrot", gen="toy_rot"), _c("toynorot", gen="toy_norot", reward="block"), _c("r2c3", row_blocks=2, col_blocks=3),
-            _c("r4c2", row_blocks=4, col_blocks=2),
+            _c("r4c2", row_blocks=4, col_blocks=2), _c("r3c2", row_blocks=3, col_blocks=2), _c("r4c3", row_blocks=4, col_blocks=3),
         ],
     },
     "JobShop": {
@@ -164,7 +164,8 @@ CONFIGS: Dict[str, Dict[str, List[Dict[str, Any]]]] = {
         ],
     },
     "MMST": {
-        "quick": [_c("default"), _c("n12e18d4a2p3L7", nodes=12, edges=18, degree=4, agents=2, per_agent=3, time_limit=7)],
+        "quick": [_c("default"), _c("n12e18d4a2p3L7", nodes=12, edges=18, degree=4, agents=2, per_agent=3, time_limit=7),
+                  _c("n13e20d5a2p3", nodes=13, edges=20, degree=5, agents=2, per_agent=3, time_limit=30)],
         "thorough": [
             _c("default"), _c("n12e18d4a2p3L7", nodes=12, edges=18, degree=4, agents=2, per_agent=3, time_limit=7),
             _c("n20e30d5a3p3L3", nodes=20, edges=30, degree=5, agents=3, per_agent=3, time_limit=3),
@@ -172,13 +173,15 @@ CONFIGS: Dict[str, Dict[str, List[Dict[str, Any]]]] = {
             _c("n20e30d5a3p3L2", nodes=20, edges=30, degree=5, agents=3, per_agent=3, time_limit=2),
             _c("n12e18d4a2p3L1", nodes=12, edges=18, degree=4, agents=2, per_agent=3, time_limit=1),
             _c("n20e30d3a3p3", nodes=20, edges=30, degree=3, agents=3, per_agent=3, time_limit=30),
+            _c("n13e20d5a2p3", nodes=13, edges=20, degree=5, agents=2, per_agent=3, time_limit=30),
+            _c("n10e16d5a3p2", nodes=10, edges=16, degree=5, agents=3, per_agent=2, time_limit=20),
         ],
     },
     "MultiCVRP": {
-        "quick": [_c("default"), _c("c6v2sparse", customers=6, vehicles=2, reward="sparse")],
+        "quick": [_c("default"), _c("c6v2sparse", customers=6, vehicles=2, reward="sparse"), _c("c6v3", customers=6, vehicles=3)],
         "thorough": [
             _c("default"), _c("c6v2", customers=6, vehicles=2), _c("c6v2sparse", customers=6, vehicles=2, reward="sparse"),
-            _c("c20v3", customers=20, vehicles=3), _c("c20v2sparse", customers=20, vehicles=2, reward="sparse"),
+            _c("c20v3", customers=20, vehicles=3), _c("c20v2sparse", customers=20, vehicles=2, reward="sparse"), _c("c6v3", customers=6, vehicles=3),
         ],
     },
     "PacMan": {
@@ -214,8 +217,8 @@ CONFIGS: Dict[str, Dict[str, List[Dict[str, Any]]]] = {
         ],
     },
     "TSP": {
-        "quick": [_c("default"), _c("n5sparse", cities=5, reward="sparse")],
-        "thorough": [_c("default"), _c("n1", cities=1), _c("n2", cities=2), _c("n5sparse", cities=5, reward="sparse"), _c("n5", cities=5), _c("n20sparse", cities=20, reward="sparse")],
+        "quick": [_c("default"), _c("n5sparse", cities=5, reward="sparse"), _c("n4", cities=4)],
+        "thorough": [_c("default"), _c("n1", cities=1), _c("n2", cities=2), _c("n5sparse", cities=5, reward="sparse"), _c("n5", cities=5), _c("n20sparse", cities=20, reward="sparse"), _c("n4", cities=4)],
     },
 }
 
